@@ -13,6 +13,7 @@ for d in "$@"; do
   if ! git apply $d/demo.diff 2>>$log; then echo "$id: demo.diff does not apply" | tee -a $log; continue; fi
   demo=$(python3 -c "import json;print(json.load(open('$d/meta.json')).get('demo_test_name','seeded_demo'))" 2>/dev/null); demo=${demo##*::}
   [ -z "$demo" ] && demo=seeded_demo
+  case "$demo" in *" "*|*"("*) demo=seeded_demo;; esac
   timeout 1500 cargo test --offline "$demo" >>$log 2>&1; r1=$?
   p1=$(grep -E "^test result" $log | tail -1)
   if ! git apply $d/patch.diff 2>>$log; then
@@ -23,7 +24,9 @@ for d in "$@"; do
   res=$(grep -E "^test result" $log.full | tail -1)
   echo "$id: demo-alone rc=$r1 [$p1] ; with-patch: [$res] fails: $fails" | tee -a /tmp/confirm-summary.txt
   ok=no
-  if [ $r1 -eq 0 ] && echo "$fails" | grep -q seeded_demo && [ $(echo $fails | wc -w) -eq 3 ] && echo "$fails" | grep -q test_io_error_on_staging_file_creation && echo "$fails" | grep -q append_op_fails_when_segment_rollover; then ok=yes; fi
+  other=$(echo $fails | tr ' ' '\n' | grep -v seeded_demo | grep -v test_io_error_on_staging_file_creation | grep -v append_op_fails_when_segment_rollover | wc -w)
+  ran=$(echo "$p1" | grep -oE "[0-9]+ passed" | grep -oE "[0-9]+")
+  if [ $r1 -eq 0 ] && [ "${ran:-0}" -ge 1 ] && echo "$fails" | grep -q seeded_demo && [ $other -eq 0 ] && echo "$fails" | grep -q test_io_error_on_staging_file_creation && echo "$fails" | grep -q append_op_fails_when_segment_rollover; then ok=yes; fi
   if [ $ok = yes ]; then
     mkdir -p $out; cp $d/patch.diff $out/patch.diff; cp $d/demo.diff $out/demo.diff
     # re-generate the patch against the current HEAD (in case of fuzz)
